@@ -76,6 +76,22 @@ Proof.
     split; [eapply le_trans; eauto|]. constructor; [eapply Hup; eauto|exact Q2].
 Qed.
 
+(* the same with a second fact R about every INPUT element (what running f on it leaves in the state) *)
+Lemma c12_mmapM_mono2 {A B} (f : A -> M St B) (Q : B -> St -> Prop) (R : A -> St -> Prop) (l : list A) :
+  (forall y s s', Q y s -> le s s' -> Q y s') ->
+  (forall x s s', R x s -> le s s' -> R x s') ->
+  Forall (fun x => forall s y s', f x s = Ok (y, s') -> le s s' /\ Q y s' /\ R x s') l ->
+  forall s ys s', mmapM f l s = Ok (ys, s') ->
+    le s s' /\ Forall (fun y => Q y s') ys /\ Forall (fun x => R x s') l.
+Proof.
+  intros Hq Hr. induction 1 as [|x l Hx Hl IH]; intros s ys s' H; cbn [mmapM] in H.
+  - unfold ret in H. injection H as <- <-. split; [apply le_refl|split; constructor].
+  - apply mbind_ok in H as (y & s1 & Ey & H). apply mbind_ok in H as (ys' & s2 & Es & H).
+    unfold ret in H. injection H as <- <-.
+    destruct (Hx _ _ _ Ey) as (L1 & Q1 & R1). destruct (IH _ _ _ Es) as (L2 & Q2 & R2).
+    split; [eapply le_trans; eauto|]. split; constructor; eauto.
+Qed.
+
 Lemma c12_mmapM_le {A B} (f : A -> M St B) (l : list A) :
   Forall (fun x => forall s y s', f x s = Ok (y, s') -> le s s') l ->
   forall s ys s', mmapM f l s = Ok (ys, s') -> le s s'.
